@@ -219,8 +219,13 @@ impl Index for HnswIndex {
 
         // For Manhattan, request more candidates since L2 ordering != L1 ordering.
         // Reranking from a larger candidate set improves recall.
-        let search_k = if is_manhattan { k * 4 } else { k };
-        let raw_results = inner.hnsw.search(&prepared_query, search_k, ef_search);
+        // Deleted ids stay in the graph until the next rebuild: ask for that many
+        // more candidates and drop the deleted ones below.
+        let tombstones = self.tombstones.read();
+        let search_k = if is_manhattan { k * 4 } else { k } + tombstones.len();
+        let raw_results = inner
+            .hnsw
+            .search(&prepared_query, search_k, ef_search.max(search_k));
 
         // Map internal indices to tuple IDs using the stored mapping
         let mut results: Vec<(TupleId, f64)> = if is_manhattan {
@@ -262,6 +267,8 @@ impl Index for HnswIndex {
                 .collect()
         };
 
+        results.retain(|(tuple_id, _)| !tombstones.contains(tuple_id));
+
         // Sort by distance and take top-k (important for Manhattan reranking)
         results.sort_by(|a, b| a.1.partial_cmp(&b.1).unwrap_or(std::cmp::Ordering::Equal));
         results.truncate(k);
@@ -301,6 +308,10 @@ impl Index for HnswIndex {
                 ));
             }
         }
+
+        // Re-inserting a deleted id makes it live again: drop its tombstone, or the
+        // rebuilt graph would leave the new vector out forever.
+        self.tombstones.write().remove(&id);
 
         // Check for duplicate ID and update in place if found
         {
@@ -371,6 +382,11 @@ impl Index for HnswIndex {
     }
 
     fn delete(&mut self, id: TupleId) {
+        // Only a stored id can be deleted: a tombstone for an id that was never
+        // inserted would hide that id as soon as it is inserted later.
+        if !self.vectors.read().iter().any(|(stored, _)| *stored == id) {
+            return;
+        }
         self.tombstones.write().insert(id);
 
         // Auto-compact when tombstone ratio exceeds 30% (#49)
